@@ -69,6 +69,10 @@ def cases(tier, seed, shard, nshards):
             arrivals.setdefault(str(t), []).append(
                 gen.simple_pipeline(rng, f"p{j}", tps, nops=rng.choice([1, 2, 3, 5]), mode="safe", cpus_hint=rng.choice([1, 2]),
                                     mem_ref=ram * rng.choice([0.02, 0.1, 0.3, 0.7]), maxn=rng.choice([2, 5])))
+        if rng.random() < 0.3:
+            # a pipeline without operators is complete the moment it is announced
+            arrivals.setdefault(str(rng.randrange(0, int(ticks * 0.5))), []).append(
+                {"pid": f"noop{i}", "prio": rng.choice(gen.PRIOS), "ops": []})
         poll = rng.choice(["zero", "tick", "second", "never", "frac", "frac", "float"])
         interval = {"zero": 0.0, "tick": 1.0 / tps, "second": 1.0, "never": 10.0 * ticks / tps,
                     "frac": (rng.randint(1, 6) + rng.choice([0.25, 0.5, 0.75])) / tps,
